@@ -321,7 +321,7 @@ func Build(m *model.Schema, seed uint64) (*Env, error) {
 		for _, a := range defs {
 			ac := &graphql.ArgumentConfig{Type: ref(a.Type), Description: a.Desc}
 			if a.HasDefault {
-				ac.DefaultValue = a.Default
+				ac.DefaultValue = DeepCopy(a.Default)
 			}
 			out[a.Name] = ac
 		}
@@ -402,7 +402,7 @@ func Build(m *model.Schema, seed uint64) (*Env, error) {
 			for _, f := range td.InputFields {
 				fc := &graphql.InputObjectFieldConfig{Type: ref(f.Type), Description: f.Desc}
 				if f.HasDefault {
-					fc.DefaultValue = f.Default
+					fc.DefaultValue = DeepCopy(f.Default)
 				}
 				out[f.Name] = fc
 			}
